@@ -1,6 +1,7 @@
 import GudhiVerif.Model.Fields
 import GudhiVerif.Zp2P
 import GudhiVerif.Crt
+import GudhiVerif.MultiField
 /-! # C10 — coefficient fields implement exact modular arithmetic (property theorems)
 
 Full statement (`C10_full`, informal): for every accepted characteristic every class computes integer arithmetic
@@ -10,10 +11,13 @@ respect to a sub-product, and rejection of characteristics that are not primes >
 
 Proved below, for the executable model `FieldsModel` that `gvdriver C10` runs against the real classes:
 the Z_p family completely (all operations, every modulus below 2³², the inverse table and the rejection of
-composites for every p ≤ 2¹⁶).  **Partial** (`C10_multi_partial`): for the multi-field family only the CRT
-idempotents are proved (`crt_idem_one`, `crt_idem_zero`); `mfPinv`'s specification (value is the inverse modulo the
-primes of T and 0 modulo the others) is checked by the correspondence run and by the oracle of `props/C10.py`, not
-yet by a theorem. -/
+composites for every p ≤ 2¹⁶).  For the multi-field family (`MultiField.lean`): `sqMul_spec` (the square-and-multiply loop
+is modular exponentiation), `isPrime_iff` / `mfInit_wf` (every field accepted by `mfInit` has distinct primes, their product
+and the CRT idempotents), `mfPid_spec` (the partial identity for `Q` is 1 modulo the primes of the field dividing `Q`, 0 modulo
+the others) and `mfPinv_spec` (the partial inverse is an inverse of `x` modulo every prime of `T = Q / gcd(x, Q)` and 0 modulo
+the other primes).  **Partial** (`C10_multi_partial`): `mfPinv_spec` takes the result of the extended-Euclid loop
+(`egcdInv`, fuel-bounded as in the model) as a hypothesis — that loop is compared with the code and with the exact oracle
+of `props/C10.py`, not proved. -/
 namespace C10
 open FieldsModel
 
